@@ -181,6 +181,37 @@ Theorem C11_preparation_node_failures_isolated :
 Proof. exact prep_node_failures_isolated. Qed.
 Print Assumptions C11_preparation_node_failures_isolated.
 
+(* The failures of a VALIDATOR are isolated as well, over whole histories.  Take two histories
+   that differ only in what concerns the validator with public key [p'] ([rel_op p']: same
+   operations, rounds at the same times with the same relays, nodes and flags, the validators
+   pairwise with the same public keys and IDENTICAL unless the key is [p'] -- so [p']'s settings,
+   whether they resolve at all, and the outcome of each of its signing requests are arbitrary on
+   both sides).  Then in every round both histories make exactly the same signing requests for
+   the other validators, send exactly the same registrations of the other validators (content,
+   timestamp, signature) to each relay and to the beacon nodes, report the same error status, and
+   forward exactly the same registrations ([rel_out p']).  In particular turning one validator's
+   signing request or resolution from success into failure changes nothing for the others, now
+   or in any later round. *)
+Theorem C11_validator_failures_isolated :
+  forall (p' : N) (ops ops' : list op),
+    Forall2 (rel_op p') ops ops' ->
+    Forall2 (rel_out p') (snd (run init ops)) (snd (run init ops')).
+Proof. intros p' ops ops' H. exact (run_related p' ops ops' init init (SRC_init p') H). Qed.
+Print Assumptions C11_validator_failures_isolated.
+
+(* Secondary beacon nodes: all of them are sent the same thing, whatever they answer, and every
+   registration in it is the registration for the FIRST relay entry of a validator of the round. *)
+Theorem C11_secondary_nodes_get_first_relay_registrations :
+  forall ops i r err reqs relays nodes,
+    nth_error ops i = Some (ORound r) ->
+    nth_error (snd (run init ops)) i = Some (OutRound err reqs relays nodes) ->
+    (exists x, nodes = map (fun _ => x) (r_nodes r))
+    /\ forall l sr, In (Some l) nodes -> In sr l ->
+         exists v res rc, In v (r_vals r) /\ v_res v = Some res /\ hd_error (rs_relays res) = Some rc
+                          /\ sr_content sr = {| ct_fee := rc_fee rc; ct_gas := rc_gas rc; ct_pub := v_pub v |}.
+Proof. exact round_nodes. Qed.
+Print Assumptions C11_secondary_nodes_get_first_relay_registrations.
+
 (* ------------------------------------------------------------------------------------------- *)
 (* 7. Forwarding.  A registration reaches relay [a] through the REST handler exactly when it is
    one of the received registrations (unchanged: the very same content, timestamp and signature),
@@ -241,4 +272,20 @@ Proof.
     repeat (destruct Ho as [<-|Ho]; [cbn in Hv; repeat (destruct Hv as [<-|Hv]; [reflexivity|]); destruct Hv|]).
     destruct Ho.
   - vm_compute. reflexivity.
+Qed.
+
+(* Non-vacuity of the isolation theorem: the same history where validator 211 resolves and signs
+   everywhere, against the one above where it does not; both are related for p' = 211. *)
+Definition ex_ops' : list op :=
+  [ ex_round 10 [ex_val 1 1 []; ex_other true [false]] [];
+    ex_round 20 [ex_other true []; ex_val 2 2 []] [(2, RErr)];
+    ex_round 30 [ex_val 1 1 []; ex_other false []] [(1, RNoClient)];
+    ex_round 40 [ex_val 1 1 []; ex_other true []] [] ].
+
+Example C11_isolation_example :
+  Forall2 (rel_op 211) ex_ops ex_ops' /\ snd (run init ex_ops) <> snd (run init ex_ops').
+Proof.
+  split.
+  - repeat constructor; cbn; try reflexivity; try (intro H; exfalso; apply H; reflexivity); try discriminate.
+  - vm_compute. discriminate.
 Qed.
